@@ -27,6 +27,7 @@ from octave_mcp.core.ast_nodes import (
     InlineMap,
     ListValue,
     LiteralZoneValue,
+    Section,
 )
 from octave_mcp.core.gbnf_compiler import GBNFCompiler, compile_gbnf_from_meta
 from octave_mcp.core.parser import parse
@@ -58,8 +59,15 @@ def _ast_to_dict(doc: Document) -> dict[str, Any]:
             result[section.key] = _convert_value(section.value)
         elif isinstance(section, Block):
             result[section.key] = _convert_block(section)
+        elif isinstance(section, Section):
+            result[_section_key(section)] = _convert_block(section)
 
     return result
+
+
+def _section_key(section: Section) -> str:
+    """Key under which a §-section appears in dict/markdown exports: its marker text."""
+    return f"§{section.section_id}::{section.key}"
 
 
 def _convert_value(value: Any) -> Any:
@@ -95,7 +103,7 @@ def _convert_value(value: Any) -> Any:
         return value
 
 
-def _convert_block(block: Block) -> dict[str, Any]:
+def _convert_block(block: Block | Section) -> dict[str, Any]:
     """Convert Block AST node to dictionary.
 
     Args:
@@ -111,6 +119,10 @@ def _convert_block(block: Block) -> dict[str, Any]:
             result[child.key] = _convert_value(child.value)
         elif isinstance(child, Block):
             result[child.key] = _convert_block(child)
+        elif isinstance(child, Section):
+            # Section markers were skipped, so everything under a § marker silently vanished
+            # from json/yaml/markdown while the projection still reported lossy=false.
+            result[_section_key(child)] = _convert_block(child)
 
     return result
 
@@ -188,11 +200,15 @@ def _ast_to_markdown(doc: Document) -> str:
             lines.append(f"## {section.key}")
             lines.append("")
             _block_to_markdown(section, lines, level=3)
+        elif isinstance(section, Section):
+            lines.append(f"## {_section_key(section)}")
+            lines.append("")
+            _block_to_markdown(section, lines, level=3)
 
     return "\n".join(lines)
 
 
-def _block_to_markdown(block: Block, lines: list[str], level: int = 3) -> None:
+def _block_to_markdown(block: Block | Section, lines: list[str], level: int = 3) -> None:
     """Convert Block to Markdown recursively.
 
     Args:
@@ -206,6 +222,10 @@ def _block_to_markdown(block: Block, lines: list[str], level: int = 3) -> None:
             lines.append(f"- **{child.key}**: {_format_markdown_value(child.value)}")
         elif isinstance(child, Block):
             lines.append(f"{'#' * level} {child.key}")
+            lines.append("")
+            _block_to_markdown(child, lines, level + 1)
+        elif isinstance(child, Section):
+            lines.append(f"{'#' * level} {_section_key(child)}")
             lines.append("")
             _block_to_markdown(child, lines, level + 1)
 
